@@ -161,6 +161,7 @@ fn cmd_check(args: &[String]) -> i32 {
         if let Ok(exe) = std::env::current_exe() {
             let sibling = exe
                 .to_string_lossy()
+                .replace(" (deleted)", "")
                 .replace("/checked/", "/release/");
             let tmp = format!("{}/replays/tmp", verif_dir);
             let _ = std::fs::create_dir_all(&tmp);
